@@ -223,6 +223,12 @@ fn with_offsets(shapes: Vec<Shape>, stys: &[Sty], ds: &[P2]) -> Vec<Case> {
     v
 }
 
+
+/// arcs and sectors only (the family whose trigonometry changes with the `fixed_point` feature)
+fn angle_shapes(pos: P2) -> Vec<Shape> {
+    shape_catalogue(false, pos).into_iter().filter(|s| matches!(s, Shape::Arc { .. } | Shape::Sector { .. })).collect()
+}
+
 fn run_part(run: &mut Run) {
     let tier = run.tier;
     let t = tier.is_thorough();
@@ -230,6 +236,9 @@ fn run_part(run: &mut Run) {
     match run.part.as_str() {
         "shapes" => {
             run.sweep_vec("shapes", "shape catalogue x S(W) x offsets", || with_offsets(shape_catalogue(false, (-2, -3)), &styles(tier.pick(4, 6)), &ds), check_prim);
+        }
+        "angles-fixed-point" => {
+            run.sweep_vec("arcs-sectors-fixed-point", "arcs and sectors of the catalogue x S(4) x offsets in the fixed_point build", || with_offsets(angle_shapes((-2, -3)), &styles(4), &ds), check_prim);
         }
         "triangles" => {
             run.sweep_vec("triangles", "all vertex triples of a 5x5 grid stride 2 (thorough: plus 6x6 stride 1 with S(4)) x S(W) x offsets",
@@ -285,7 +294,7 @@ fn main() {
         level: "exploration",
         rule: "every (drawable, style, offset d) of the listed product once; non-trivial = the untranslated drawable draws at least one pixel; the pixel map of x.translate(d) must equal the map of x shifted by d; non-empty bounding boxes, points() sequences and contains() (box grown by 2) must shift by d; translate_mut must equal translate; polylines are also moved by moving their vertices; text must return a next position shifted by d",
         assumptions: &["bounded to the listed catalogue and offsets (objects straddle the origin so the offsets move them across both axes)"],
-        parts: |_| vec![PartSpec::new("shapes", "verif"), PartSpec::new("triangles", "verif"), PartSpec::new("polylines", "verif"), PartSpec::new("images-text", "verif")],
+        parts: |_| vec![PartSpec::new("shapes", "verif"), PartSpec::new("triangles", "verif"), PartSpec::new("polylines", "verif"), PartSpec::new("images-text", "verif"), PartSpec::new("angles-fixed-point", "verif_fp")],
         run_part,
         required_classes: |_| vec!["rect", "circle", "ellipse", "rrect", "triangle", "line", "arc", "sector", "polyline", "thick-triangle-or-polyline", "moved-across-y-axis", "moved-across-x-axis", "points-compared", "contains-compared", "text", "image"],
         crash_is_verdict: false,
